@@ -85,7 +85,7 @@ def run_one_slot(bank, path, slot):
             fired = c.returncode == 1 and "VIOLATION property=" + pid in out
             results[pid] = {"rc": c.returncode, "fired": fired}
             if bank == "violations":
-                named = all(e in out for e in meta["expect"]) if meta["expect"] else True
+                named = all(any(alt in out for alt in e.split("|")) for e in meta["expect"]) if meta["expect"] else True
                 build_failed = "build-failed" in out
                 if not fired or not named or build_failed:
                     ok = False
